@@ -266,7 +266,7 @@ class HistoryRunner:
         self.ops.append(("confirm", sess_index, cid, now))
         base = getattr(self, "sids_before_restart", 0)      # the model numbers sessions from 0 again after a restart
         msid = "x" if sess_index is None or sess_index < base else sess_index - base
-        self.model_lines.append("sconfirm %s %s %d" % (msid, cid if cid.isdigit() and len(cid) < 9 and (cid == "0" or not cid.startswith("0")) else "x", now))
+        self.model_lines.append("sconfirm %s %s %d" % (msid, ".".join(str(ord(ch)) for ch in cid) if cid else "-", now))
         self.real.append("ok" if res[0] == "ok" else res[0])
         self.model_lines.append("sapplyall")
         self.real.append("ok")
